@@ -180,6 +180,8 @@ def judge_case(ctx, res):
         ctx.violation(f"files-changed-by-load {fam}", f"{schema}: loading and releasing the library changed its files: "
                       f"{diff_paths(by['f2'].get('ret'), by['f3'].get('ret'))[:3]}", wit)
     o1, o2 = by["o1"]["ret"], by["o2"]["ret"]
+    from ..framework import held_handles
+    held_handles(ctx, o1, fam, schema, wit, " (observing block)")
     for p in diff_paths(o1, o2):
         ctx.violation(f"repeated-observation-differs {fam} {generic_site(p)}", f"{schema}: the same observer answered differently the second time at {p}", wit)
     if "t1" in by and "t2" in by and "ret" in by["t1"] and "ret" in by["t2"]:
